@@ -4,6 +4,8 @@ caller still owns) and discharges the end-of-scenario ledger obligations."""
 import time, traceback
 import z3
 from mirsym import *
+import mirsym
+import re
 
 
 class Result:
@@ -955,4 +957,71 @@ def serde_visit_seq(fns, src, nmax, name=None, mir_text=None):
                    'an element read from the input was lost (neither stored nor dropped)', 'end(%s)' % kind)
     if not {'ok', 'err', 'unwind'} <= seen:
         res.verdict, res.reason = 'inconclusive', 'vacuity: outcomes seen %s' % sorted(seen)
+    return finish(res, ex, t0, paths, unw)
+
+
+# ----------------------------------------------------------------------------------------------- C02 / C10 / C11: write permission of mutable views
+def ptr_leaves(v):
+    if isinstance(v, mirsym._Ptr) and not isinstance(v, mirsym.Ref):
+        yield v
+    elif isinstance(v, dict):
+        if v.get('kind') in ('slice', 'rslice'):
+            return
+        for k, x in v.items():
+            if k != '__closure__':
+                yield from ptr_leaves(x)
+    elif isinstance(v, Enum):
+        yield from ptr_leaves(v.fields)
+
+
+def mut_views(fns, src, nmax, name=None):
+    """Every function of the crate that takes `&mut` storage and returns a mutable view of it (`&mut [T]`, `&mut GenericArray`, chunk views,
+    flatten/unflatten/split by `&mut`): the returned pointer is derived from the `&mut` argument through mutable borrows / raw pointers only.
+    A derivation step through a shared borrow (e.g. `as_ptr()` where `as_mut_ptr()` was meant) makes every write through the view undefined
+    behaviour although address, length and contents look right. Loop-free; all N."""
+    N, J, L, Q = syms('N', 'J', 'L', 'chunks')
+    res = Result(name or 'mutprov', ['C02', 'C10', 'C11'], 'every `&mut`-to-`&mut` view function found in the MIR dump (by signature); all 64-bit N / slice lengths; loop-free')
+    t0, paths, unw = time.time(), 0, 0
+    ex = Exec(fns, src, J, N, nmax=nmax)
+    done, skipped = [], []
+    seen_names = set()
+    for fname, lst in fns.items():
+        for fn in lst:
+            if fn.ctfe or '{closure' in fname or len(fn.ptypes) != 1:
+                continue
+            pt, rt = norm(fn.ptypes[0]), norm(fn.ret or '')
+            if not pt.startswith('&mut ') or '&mut ' not in rt or 'usize' in rt or 'Iter' in pt or 'Builder' in pt or 'Consumer' in pt or 'Formatter' in pt:
+                continue
+            short = fname.split('>::')[-1]
+            key = (short, pt)
+            if key in seen_names:
+                continue
+            seen_names.add(key)
+            st = new_state()
+            st.pc.append((ex.SZ == 0) == z3.Or(N == 0, ex.S == 0))
+            if re.match(r'&mut \[(GenericArray<T, N>|\[T; \w+\])\]$', pt):
+                S = Arr('S', L)
+                st.pc += [MULOK(Q, N), ULE(Q * N, L)]
+                arg = Slice(S, bv(0), Q * N, stride=N)
+            elif pt == '&mut [T]':
+                S = Arr('S', L)
+                arg = Slice(S, bv(0), L)
+            else:
+                S = Arr('A', N)
+                arg = ArrRef(S)
+            try:
+                n_before = len(ex.found)
+                for (s2, kind, val) in ex.run_fn(st, fn, [arg]):
+                    paths += 1
+                    unw += kind == 'unwind'
+                    if kind != 'ret':
+                        continue
+                    for pv in ptr_leaves(val):
+                        ex.require(s2, z3.BoolVal(pv.prov != 'shared'), 'mutable view returned whose pointer was derived through a shared borrow (writes through it are undefined behaviour)', short)
+                done.append(short)
+            except (NotImplementedError, Inconclusive, KeyError, AttributeError, TypeError) as e:
+                skipped.append('%s (%s)' % (short, str(e)[:80]))
+    res.bounds += '; functions decided: %s; not encodable (left to K): %s' % (', '.join(sorted(set(done))), '; '.join(skipped) or 'none')
+    if len(set(done)) < 8:
+        res.verdict, res.reason = 'inconclusive', 'vacuity: only %d view functions could be executed (%s)' % (len(set(done)), '; '.join(skipped)[:300])
     return finish(res, ex, t0, paths, unw)
